@@ -1,5 +1,5 @@
 (* C11/Witness.v — non-vacuity examples and concrete evaluations. *)
-From Verif Require Import Common.Base Generated.StatusTable C11.Model C11.Diagram C11.Proofs.
+From Verif Require Import Common.Base Generated.StatusTable C11.Model C11.Diagram C11.Proofs C11.ProofsConc.
 
 (* a non-trivial report sequence: illegal reports interleaved with legal ones *)
 Example ex_run :
@@ -36,3 +36,21 @@ Example ex_lifecycle :
   = [(1, Starting); (1, RecoverableError); (0, Starting); (0, OK); (0, Stopping); (0, Stopped);
      (1, Stopping); (1, PermanentError)].
 Proof. vm_compute. reflexivity. Qed.
+
+(* concurrently issued reports: from Starting, the automatic OK racing with the component's own
+   RecoverableError has exactly two outcomes (OK won: Starting, OK, RecoverableError; the component
+   won: Starting, RecoverableError) — the set is neither empty nor a singleton *)
+Example ex_conc_outcomes :
+  conc_outcomes [(0, RStatus Starting)] [(0, RAutoOK); (0, RStatus RecoverableError)]
+  = [[(0, Starting); (0, OK); (0, RecoverableError)]; [(0, Starting); (0, RecoverableError)]].
+Proof. vm_compute. reflexivity. Qed.
+
+(* three concurrent reports have 3! orderings *)
+Example ex_perms : length (perms [1; 2; 3]) = 6 /\ In [2; 3; 1] (perms [1; 2; 3]).
+Proof. vm_compute. tauto. Qed.
+
+(* auto_ok_in_any_linearisation: both branches occur *)
+Example ex_auto_ok_branches :
+  snd (rep_step (fst (rep_run [] [(0, RStatus Starting); (1, RStatus Starting)])) (0, RAutoOK)) = Some (0, OK) /\
+  snd (rep_step (fst (rep_run [] [(0, RStatus Starting); (0, RStatus RecoverableError)])) (0, RAutoOK)) = None.
+Proof. vm_compute. auto. Qed.
